@@ -168,3 +168,24 @@ impl<W: Copy, const N: usize> Seek for ArrQueue<W, N> {
         if pos <= self.n { self.pos = pos; Ok(()) } else { Err(()) }
     }
 }
+
+/// A word stack whose `Position` is its whole content: `seek(snapshot)` installs a snapshot and
+/// `pos()` returns one.  Lets a harness put a coder with private fields into an arbitrary state
+/// through the public `Seek`/`Pos` traits.
+#[derive(Clone, Copy, Debug, PartialEq, Eq)]
+pub struct SnapStack<W: Copy, const N: usize>(pub ArrStack<W, N>);
+impl<W: Copy + Default, const N: usize> Default for SnapStack<W, N> { fn default() -> Self { SnapStack(ArrStack::default()) } }
+impl<W: Copy, const N: usize> WriteWords<W> for SnapStack<W, N> {
+    type WriteError = ();
+    fn write(&mut self, w: W) -> Result<(), ()> { self.0.write(w) }
+    fn maybe_full(&self) -> bool { self.0.maybe_full() }
+}
+impl<W: Copy, const N: usize> ReadWords<W, Stack> for SnapStack<W, N> {
+    type ReadError = Infallible;
+    fn read(&mut self) -> Result<Option<W>, Infallible> { ReadWords::<W, Stack>::read(&mut self.0) }
+    fn maybe_exhausted(&self) -> bool { self.0.n == 0 }
+}
+impl<W: Copy, const N: usize> BoundedReadWords<W, Stack> for SnapStack<W, N> { fn remaining(&self) -> usize { self.0.n } }
+impl<W: Copy, const N: usize> PosSeek for SnapStack<W, N> { type Position = ArrStack<W, N>; }
+impl<W: Copy, const N: usize> Pos for SnapStack<W, N> { fn pos(&self) -> ArrStack<W, N> { self.0 } }
+impl<W: Copy, const N: usize> Seek for SnapStack<W, N> { fn seek(&mut self, p: ArrStack<W, N>) -> Result<(), ()> { self.0 = p; Ok(()) } }
